@@ -216,7 +216,8 @@ type innerReplay struct {
 }
 
 // reportInner turns failed inner results into violations and folds counts into the evidence.
-func reportInner(c *core.Ctx, spec *batchSpec, out *batchOutcome, label string) {
+func reportInner(c *core.Ctx, spec *batchSpec, out *batchOutcome, label string) error {
+	var infraErr error
 	byID := map[string]*schema.Schema{}
 	for _, s := range spec.Schemas {
 		byID[s.ID] = s
@@ -234,12 +235,17 @@ func reportInner(c *core.Ctx, spec *batchSpec, out *batchOutcome, label string) 
 		for _, s := range r.Samples {
 			c.Ev.Sample(map[string]any{"check": r.Check, "schema": r.Schema, "unit": r.Unit, "case": s}, 4)
 		}
+		if r.Failed && strings.HasPrefix(r.Message, "infrastructure:") {
+			infraErr = fmt.Errorf("%s/%s: %s", r.Schema, r.Unit, r.Message)
+			continue
+		}
 		if r.Failed {
 			doc := &innerReplay{Property: c.Prop, Kind: "inner", Variant: spec.Variant, Param: spec.Param, Check: r.Check, Unit: r.Unit,
 				Cases: spec.Cases, Seed: spec.seed(c), Schema: byID[r.Schema], Extra: spec.Extra, Observed: r.Message}
 			c.Violation(r.Check+"-"+r.Schema+"-"+r.Unit, doc, fmt.Sprintf("[%s %s/%s] %s", r.Check, r.Schema, r.Unit, firstFailLine(r.Message)))
 		}
 	}
+	return infraErr
 }
 
 func firstFailLine(msg string) string {
@@ -258,6 +264,18 @@ func replayInner(c *core.Ctx, doc json.RawMessage) (bool, string, error) {
 	if err := json.Unmarshal(doc, &r); err != nil {
 		return false, "", err
 	}
+	if needsOpenAPI[r.Check] {
+		ex, err := prepareOpenAPI(c, 9000, []*schema.Schema{r.Schema})
+		if err != nil {
+			return false, "", err
+		}
+		if r.Extra == nil {
+			r.Extra = map[string]string{}
+		}
+		for k, v := range ex {
+			r.Extra[k] = v
+		}
+	}
 	spec := &batchSpec{Name: "replay", Variant: r.Variant, Schemas: []*schema.Schema{r.Schema}, Param: r.Param, Checks: []string{r.Check},
 		Cases: r.Cases, Shards: 1, Only: r.Schema.ID, OnlyUnit: r.Unit, Seed: r.Seed, Extra: r.Extra, NoAvoid: r.NoAvoid, Shrink: "2s"}
 	out, err := runBatch(c, spec)
@@ -271,6 +289,9 @@ func replayInner(c *core.Ctx, doc json.RawMessage) (bool, string, error) {
 		return false, "", fmt.Errorf("replay schema no longer builds or is rejected: %s", describeBroken(out))
 	}
 	for _, res := range out.Results {
+		if res.Failed && strings.HasPrefix(res.Message, "infrastructure:") {
+			return false, "", fmt.Errorf("%s", res.Message)
+		}
 		if res.Failed {
 			return true, firstFailLine(res.Message), nil
 		}
@@ -304,3 +325,6 @@ func raceExcerpt(out string) string {
 	}
 	return rest
 }
+
+// needsOpenAPI lists inner checks that read emitted OpenAPI documents.
+var needsOpenAPI = map[string]bool{"c06": true, "c07": true}
